@@ -13,6 +13,8 @@ import (
 func rulesC05(c *Ctx) {
 	c05Executor(c)
 	c05Wait(c)
+	// the cancelled branch of the wait reports exec.LastError(): a nil there would read as "permit acquired"
+	c17Flags(c)
 	c05Delegation(c)
 	c05MaxWait(c)
 	c05Smooth(c)
